@@ -800,7 +800,9 @@ class Frame:
         if c is not None:
             if 'fn' in c:
                 return TOP
-            if 'v' not in c and c.get('promoted') is not None and c.get('def'):
+            v_ = c.get('v')
+            opaque_ = isinstance(v_, dict) and ('opaque' in v_ or (isinstance(v_.get('ref'), dict) and 'opaque' in v_['ref']))
+            if ('v' not in c or opaque_) and c.get('promoted') is not None and c.get('def'):
                 v = self.interp.eval_promoted(c)
                 if v is not None:
                     return v
@@ -894,6 +896,55 @@ class Path:
                 truth = (v != 0) != n2
                 return truth != neg
         return None
+
+
+class SBit:
+    """A bit of the sign algebra: the GF(2)-affine form  c + sum(atoms)  over sgn0 atoms (1 = Negative / true).  Values of
+    `Sgn0Result`, comparisons of them with each other or with a constant, `^`, `!` and `==` / `!=` of the resulting booleans
+    all stay in this form, so a sign fix is decided by value whatever its spelling."""
+    __slots__ = ('atoms', 'c')
+
+    def __init__(self, atoms=None, c=0):
+        self.atoms = dict(atoms or {})
+        self.c = c & 1
+
+    @staticmethod
+    def atom(key, info):
+        return SBit({key: info}, 0)
+
+    def xor(self, o):
+        d = dict(self.atoms)
+        for k, v in o.atoms.items():
+            if k in d:
+                del d[k]
+            else:
+                d[k] = v
+        return SBit(d, self.c ^ o.c)
+
+    def flip(self):
+        return SBit(self.atoms, self.c ^ 1)
+
+    def key(self):
+        return tuple(sorted(self.atoms))
+
+    def __eq__(self, o):
+        return isinstance(o, SBit) and self.key() == o.key() and self.c == o.c
+
+    def __hash__(self):
+        return hash((self.key(), self.c))
+
+    def __repr__(self):
+        return 'SBit(%s%s)' % (' ^ '.join(self.key()) or '0', ' ^ 1' if self.c else '')
+
+
+def to_sbit(v):
+    if isinstance(v, SBit):
+        return v
+    if isinstance(v, Int) and v.v in (0, 1):
+        return SBit(None, v.v)
+    if isinstance(v, Agg) and v.kind and isinstance(v.kind[0], str) and v.kind[0].endswith('Sgn0Result') and not v.items:
+        return SBit(None, 1 if v.kind[1] == 'Negative' else 0)
+    return None
 
 
 class Interp:
@@ -1059,12 +1110,24 @@ class Interp:
                     prev = pth.decided(label)
                     if prev is not None:
                         decided = 1 if prev else 0
+                elif isinstance(dv, SBit):
+                    if not dv.atoms:
+                        decided = dv.c
+                    else:
+                        label = ('sbit', dv)
+                        prev = pth.decided(label)
+                        if prev is not None:
+                            decided = 1 if prev else 0
+                        else:
+                            prev = pth.decided(('sbit', dv.flip()))
+                            if prev is not None:
+                                decided = 0 if prev else 1
                 if decided is None and self.switch_hook is not None:
                     forced = self.switch_hook(fr, t, dv, pth)
                     if forced is not None:
                         bb = forced
                         continue
-                if decided is None and self.stop_on_unknown_switch and not (isinstance(dv, tuple) and dv and dv[0] in ('bool', 'discr')):
+                if decided is None and self.stop_on_unknown_switch and not (isinstance(dv, SBit) or (isinstance(dv, tuple) and dv and dv[0] in ('bool', 'discr'))):
                     results.append((pth, ('stopped', fr, bb), {}))
                     return
                 if decided is None and isinstance(dv, (BitVal, OrBits)):
@@ -1317,6 +1380,12 @@ class Interp:
                 if r is not None:
                     fr.storev(dst, Int(r))
                     return
+            if op in ('BitXor', 'Ne', 'Eq') and (isinstance(a, SBit) or isinstance(b, SBit)):
+                sa, sb = to_sbit(a), to_sbit(b)
+                if sa is not None and sb is not None:
+                    r_ = sa.xor(sb)
+                    fr.storev(dst, r_.flip() if op == 'Eq' else r_)
+                    return
             if op in ('BitXor', 'Ne') and isinstance(a, tuple) and a and a[0] == 'bool' and isinstance(b, Int):
                 fr.storev(dst, a if b.v == 0 else ('bool', ('not', a[1])))
                 return
@@ -1341,6 +1410,8 @@ class Interp:
                     return
             if isinstance(a, Int) and rv['op'] == 'Not':
                 fr.storev(dst, Int(1 - a.v) if a.bits == 1 or a.v in (0, 1) else Int(~a.v & ((1 << 64) - 1)))
+            elif isinstance(a, SBit) and rv['op'] == 'Not':
+                fr.storev(dst, a.flip())
             elif isinstance(a, tuple) and a[0] == 'bool' and rv['op'] == 'Not':
                 fr.storev(dst, ('bool', ('not', a[1])))
             elif rv['op'] == 'PtrMetadata':
@@ -1371,6 +1442,8 @@ class Interp:
             v = fr.load(rv['place'])
             if isinstance(v, Opt):
                 fr.storev(dst, ('discr', v, rv['place']))
+            elif isinstance(v, SBit):
+                fr.storev(dst, v)
             elif isinstance(v, Agg) and v.kind and isinstance(v.kind[0], str) and v.kind[0].endswith('cmp::Ordering') and v.kind[1] in ('Less', 'Equal', 'Greater'):
                 fr.storev(dst, Int({'Less': 255, 'Equal': 0, 'Greater': 1}[v.kind[1]], 8))
             elif isinstance(v, Agg) and v.kind and isinstance(v.kind[0], str) and (v.kind[0].endswith('result::Result') or v.kind[0].endswith('ops::ControlFlow')) and v.kind[1] in ('Ok', 'Err', 'Continue', 'Break'):
@@ -1593,6 +1666,12 @@ class Interp:
             elif isinstance(tgt, tuple):
                 base = (tgt[1].root, list(tgt[1].proj))
             if base is not None:
+                if ty.startswith('std::ops::RangeTo<') and isinstance(rng, Agg) and len(rng.items) == 1 and isinstance(rng.items[0], Int):
+                    cur_ = fr._project(fr.store.get(base[0], TOP), base[1])
+                    if isinstance(cur_, Agg) and rng.items[0].v <= len(cur_.items):
+                        # a bounded prefix view
+                        fr.storev(dest, Ref(base[0], list(base[1]) + [['off', 0, rng.items[0].v]]))
+                        return
                 if ty.endswith('RangeFull') or ty.startswith('std::ops::RangeTo<'):
                     fr.storev(dest, Ref(base[0], list(base[1])))
                     return
@@ -1616,6 +1695,14 @@ class Interp:
                 else:
                     fr.storev(dest, Opt('none', TOP))
                 return
+        if name == 'reverse' and res.startswith('core::slice::<impl [T]>::reverse') and len(args) == 1:
+            dv_ = fr.operand(args[0])
+            if isinstance(dv_, Ref):
+                cur = fr._project(fr.store.get(dv_.root, TOP), dv_.proj)
+                if isinstance(cur, Agg):
+                    for i_, it_ in enumerate(reversed(list(cur.items))):
+                        fr.store[dv_.root] = fr._update(fr.store.get(dv_.root), list(dv_.proj) + [['ci', i_, 0, False]], it_)
+                    return
         if name == 'copy_from_slice' and res.startswith('core::slice::<impl [T]>::copy_from_slice'):
             dv_ = fr.operand(args[0])
             src = self.value_of_ref(fr, args[1])
@@ -1632,14 +1719,29 @@ class Interp:
         if trait == 'std::cmp::PartialEq' and name in ('eq', 'ne') and len(args) == 2:
             a = self._as_lin(fr.deref_operand(args[0]))
             b = self._as_lin(fr.deref_operand(args[1]))
+            if isinstance(a, SBit) or isinstance(b, SBit):
+                sa, sb = to_sbit(a), to_sbit(b)
+                if sa is not None and sb is not None:
+                    r_ = sa.xor(sb)
+                    fr.storev(dest, r_.flip() if name == 'eq' else r_)
+                    return
             fr.storev(dest, ('bool', (name, a, b, where)))
             return
         # ---- sgn0 / conditional negation (signum module)
         if trait == 'signum::Signum0' and name == 'sgn0':
-            fr.storev(dest, ('sgn0', self.place_id(fr, args[0]), where, self._as_lin(fr.deref_operand(args[0]))))
+            v_ = self._as_lin(fr.deref_operand(args[0]))
+            pid_ = self.place_id(fr, args[0])
+            # the sign is a function of the value: one atom per tracked value; an untracked value gets an atom of its own
+            if isinstance(v_, Lin):
+                key_ = 'sgn0(%r)' % (v_,)
+            else:
+                self._sgn_ctr = getattr(self, '_sgn_ctr', 0) + 1
+                key_ = 'sgn0(?%d of %r at %s)' % (self._sgn_ctr, pid_, where)
+            fr.storev(dest, SBit.atom(key_, ('sgn0', pid_, where, v_)))
             return
         if trait == 'std::ops::BitXor' and name == 'bitxor':
-            fr.storev(dest, ('xor', fr.operand(args[0]), fr.operand(args[1])))
+            sa, sb = to_sbit(fr.operand(args[0])), to_sbit(fr.operand(args[1]))
+            fr.storev(dest, sa.xor(sb) if sa is not None and sb is not None else ('xor', fr.operand(args[0]), fr.operand(args[1])))
             return
         if trait == 'signum::Signum0' and name == 'negate_if':
             v = self._as_lin(fr.deref_operand(args[0]))
